@@ -841,6 +841,9 @@ def analyse(a, arch, only=None, file_level=None):
                 for typ, target, _ in reloc_at.get(off + 1 if arch == "x64" else off, ()):
                     if kind_of.get(target) in OPTIONAL_CALLEE_KINDS:
                         noreturn.add(off)
+        # return offsets of those calls: the map recorded there is never read (the callee ends the process), and the
+        # stack-overflow slow path releases the frame before it calls out, so the frame-extent rule does not apply
+        noreturn_rets = set(ret for off, ret, how, txt in calls if off in noreturn)
         depth, issues, dead = stack_depths(f, arch, noreturn, a.jump_tables)
         for cls, text in issues[:3]:
             P.append(Problem(cls, KIND_NAMES[e.kind] + ":" + arch, sym, text))
@@ -894,6 +897,8 @@ def analyse(a, arch, only=None, file_level=None):
                     ext = ret_depth.get(pc)
                     if ext is None:
                         continue  # reported below: map not at a (reachable) call
+                    if pc in noreturn_rets:
+                        continue
                     if s >= 16 and s in fp_args:
                         # calibration: boots leaves stack-passed arguments where the caller put them (fp+16+8k is the
                         # `Arg`'s spill slot, pkgs/boots/regalloc.dora allocate_fixed_output) and lists them in the
@@ -918,6 +923,8 @@ def analyse(a, arch, only=None, file_level=None):
                     P.append(Problem("slot-unaligned", "interior", sym, "gcpoint %d: interior pair at %d is not 8-aligned" % (pc, s)))
                     continue
                 ext = ret_depth.get(pc) if e.kind == KIND_OPTIMIZED else fmax
+                if e.kind == KIND_OPTIMIZED and pc in noreturn_rets:
+                    ext = None
                 if ext is not None and not (-ext <= s and s + 16 <= 0):
                     P.append(Problem("slot-outside-frame", "interior", sym, "gcpoint %d: interior pair [%d,%d) outside the frame [-%d, 0)" % (pc, s, s + 16, ext)))
                 for w in words:
